@@ -362,6 +362,7 @@ type vsCfg struct {
 }
 
 type vsCase struct {
+	nCancelChecks int // cancellations judged so far in this case
 	seed int64
 	idx  int
 	rng  *rand.Rand
@@ -1440,6 +1441,18 @@ func (c *vsCase) actCancel() bool {
 	}
 	if healthy {
 		c.checkOthersUntouched(cl, before, "while the connection was healthy")
+		// every third time: let the bound of the detached cancellation notice (notifyCancellationTimeout) pass
+		// first — "the session stays usable" also long after the cancellation, and nothing else is cancelled
+		// when that notice is given up (no PRNG draw: pinned (seed, idx) cases keep their meaning)
+		c.nCancelChecks++
+		if c.nCancelChecks%3 == 0 {
+			time.Sleep(notifyCancellationTimeout + time.Second)
+			synctest.Wait()
+			c.tag("follow-up-late")
+			if c.healthy() {
+				c.checkOthersUntouched(cl, before, "after the cancellation notice's time bound had passed")
+			}
+		}
 		// a later call on the same session still works
 		if c.cs != nil && c.healthy() {
 			tok := c.newTok("f")
